@@ -183,6 +183,8 @@ class C09Part(WirePart):
         bad = []
         for i, (l, o) in enumerate(zip(hist, impl_out)):
             op = l.split()[0]
+            if o.strip() == "bad-op":
+                continue          # reference to an object that does not exist (shrunk history): a protocol error, not an outcome
             if op == "ser":
                 if not o.startswith("IMG "):
                     bad.append(("cpc/serialize-throws", o[:120], i)); continue
@@ -243,7 +245,7 @@ class C10Part(WirePart):
             rec[(d["kind"], d["hex"])] = d["content"]
         for i, (l, o) in enumerate(zip(hist, impl_out)):
             op = l.split()[0]
-            if op not in ("load", "ser"):
+            if op not in ("load", "ser") or o.strip() == "bad-op":
                 continue
             if not o.startswith("IMG "):
                 bad.append(("cpc/%s-throws" % op, o[:120], i)); continue
